@@ -340,7 +340,9 @@ func (c *simCluster) emit(n *simNode, desc, ev, pre, opts string, o stepObs) {
 		outk = fmt.Sprint(uint8(o.resp.getResult()))
 	}
 	c.w.dist[kind+"/"+outk]++
-	c.w.cases = append(c.w.cases, fmt.Sprintf("NCase %d %s %s %s %s", c.w.id(desc+" @"+fmt.Sprint(id)), opts, pre, ev, out))
+	cid := c.w.id(desc + " @" + fmt.Sprint(id))
+	c.w.kinds[strconv.Itoa(cid)] = kind
+	c.w.cases = append(c.w.cases, fmt.Sprintf("NCase %d %s %s %s %s", cid, opts, pre, ev, out))
 	c.note("n%d %s -> %s", id, desc, outk)
 	if o.panicv != nil {
 		c.finding("C15", "panic "+kind, fmt.Sprintf("node %d panicked in %s: %v", id, desc, o.panicv))
@@ -699,6 +701,14 @@ func (c *simCluster) step() {
 }
 
 // snapshotStep: one of the three phases of a TakeSnapshot task at any node.
+func (c *simCluster) doTimeout(n *simNode) {
+	c.run(n, "timeout", "ETimeout", func() (response, []string) {
+		n.r.timer.active = false
+		n.role().onTimeout()
+		return nil, nil
+	})
+}
+
 func (c *simCluster) snapshotStep(n *simNode) {
 	id := n.r.nid
 	switch {
@@ -1005,31 +1015,157 @@ func (c *simCluster) transferMsgs(n *simNode, hadResp bool) []string {
 	return []string{"(MTimeoutNow 0)"}
 }
 
+// doReplUpdate: the replUpdateCh case of stateLoop for the oldest queued update.
+func (c *simCluster) doReplUpdate(n *simNode) {
+	l := n.l
+	id := n.r.nid
+	if len(c.upd[id]) == 0 {
+		return
+	}
+	u := c.upd[id][0]
+	c.upd[id] = c.upd[id][1:]
+	var lit string
+	switch x := u.update.(type) {
+	case matchIndex:
+		lit = fmt.Sprintf("(UMatch %d)", x.val)
+	case removeLTE:
+		lit = fmt.Sprintf("(URemoveLTE %d)", x.val)
+	case newTerm:
+		lit = fmt.Sprintf("(UNewTerm %d)", x.val)
+	case noContact:
+		lit = fmt.Sprintf("(UNoContact %s)", coqBool(!x.time.IsZero()))
+	default:
+		return
+	}
+	had := l.transfer.respCh != nil
+	c.run(n, "replUpdate "+lit, fmt.Sprintf("(ELeader (LReplUpdate %d %s))", u.status.id, lit), func() (response, []string) {
+		l.checkReplUpdates(u)
+		return nil, c.transferMsgs(n, had)
+	})
+}
+
+// doClient: the newEntryCh case of stateLoop at a leader, for one batch.
+func (c *simCluster) doClient(n *simNode, kinds []entryType) {
+	l := n.l
+	id := n.r.nid
+	var head, tail *newEntry
+	var lits []string
+	for _, k := range kinds {
+		var ft FSMTask
+		var lit string
+		switch k {
+		case entryRead:
+			ft = ReadFSM(nil)
+			lit = fmt.Sprintf("(mkNewReq %d [] ", uint8(entryRead))
+		case entryBarrier:
+			ft = BarrierFSM()
+			lit = fmt.Sprintf("(mkNewReq %d [] ", uint8(entryBarrier))
+		default:
+			p := c.payload()
+			ft = UpdateFSM(p)
+			lit = fmt.Sprintf("(mkNewReq %d %s ", uint8(entryUpdate), coqBytes(p))
+		}
+		st := c.newTask(id, ft, "fsm")
+		lits = append(lits, lit+fmt.Sprint(st.id)+")")
+		ne := ft.newEntry()
+		if tail != nil {
+			tail.next, tail = ne, ne
+		} else {
+			head, tail = ne, ne
+		}
+	}
+	c.run(n, "client batch", "(ELeader (LClient ["+strings.Join(lits, ";")+"]))", func() (response, []string) {
+		l.storeEntry(head)
+		return nil, nil
+	})
+}
+
+// doFlr: one piece of work of the replication goroutine for follower fid: consume a
+// pending leader update, or write the next request (probe or pipelined entries).
+func (c *simCluster) doFlr(n *simNode, fid uint64) {
+	l := n.l
+	id := n.r.nid
+	rp := l.repls[fid]
+	rq := c.reqs[rp]
+	if rq == nil {
+		return
+	}
+	if len(rp.leaderUpdateCh) > 0 {
+		c.run(n, fmt.Sprintf("flr %d leaderUpdate", fid), fmt.Sprintf("(ELeader (LFlrUpdate %d))", fid), func() (response, []string) {
+			u := <-rp.leaderUpdateCh
+			rp.onLeaderUpdate(u, rq)
+			return nil, c.drainUpdates(n)
+		})
+		return
+	}
+	key := [2]uint64{id, fid}
+	// replicate(): lock-step probes until matchIndex+1 == nextIndex, then a pipeline
+	if !c.piping[key] && c.await[key] > 0 {
+		return // a probe waits for its response
+	}
+	if c.await[key] >= 3 {
+		return
+	}
+	sendEntries := c.piping[key]
+	var wire []byte
+	var needSnap bool
+	pv := c.run(n, fmt.Sprintf("flr %d send entries=%v", fid, sendEntries), fmt.Sprintf("(ELeader (LFlrSend %d %s))", fid, coqBool(sendEntries)), func() (response, []string) {
+		cn, buf := simConn(nil)
+		err := rp.writeAppendEntriesReq(cn, rq, sendEntries)
+		if err == log.ErrNotFound {
+			needSnap = true
+			return nil, []string{fmt.Sprintf("(MNeedSnapshot %d)", fid)}
+		}
+		if err != nil {
+			panic(err)
+		}
+		wire = append([]byte{}, buf.Bytes()...)
+		// decode what was really written, for the case file
+		rd := bytes.NewReader(wire[1:])
+		q := &appendReq{}
+		if err := q.decode(rd); err != nil {
+			panic(err)
+		}
+		var es []*entry
+		for k := uint64(0); k < q.numEntries; k++ {
+			e := &entry{}
+			if err := e.decode(rd); err != nil {
+				panic(err)
+			}
+			es = append(es, e)
+		}
+		return nil, []string{fmt.Sprintf("(MAppend %d %s)", fid, coqAppendReq(q, es))}
+	})
+	if pv != nil {
+		return
+	}
+	if needSnap {
+		c.sendSnapshot(n, fid, rq)
+		return
+	}
+	m := &simMsg{from: id, to: fid, wire: wire, kind: rpcAppendEntries, epoch: c.epoch[id], reqLast: rp.nextIndex - 1}
+	rd := bytes.NewReader(wire[1:])
+	q := &appendReq{}
+	_ = q.decode(rd)
+	var es []*entry
+	for k := uint64(0); k < q.numEntries; k++ {
+		e := &entry{}
+		_ = e.decode(rd)
+		es = append(es, e)
+	}
+	m.lit = "(EAppendReq " + coqAppendReq(q, es) + ")"
+	m.piped = sendEntries
+	c.net = append(c.net, m)
+	c.pipes[key] = append(c.pipes[key], m)
+	c.await[key]++
+}
+
 func (c *simCluster) leaderStep(n *simNode) {
 	l := n.l
 	id := n.r.nid
 	// pending replication updates first, most of the time
 	if len(c.upd[id]) > 0 && c.rnd.Intn(4) != 0 {
-		u := c.upd[id][0]
-		c.upd[id] = c.upd[id][1:]
-		var lit string
-		switch x := u.update.(type) {
-		case matchIndex:
-			lit = fmt.Sprintf("(UMatch %d)", x.val)
-		case removeLTE:
-			lit = fmt.Sprintf("(URemoveLTE %d)", x.val)
-		case newTerm:
-			lit = fmt.Sprintf("(UNewTerm %d)", x.val)
-		case noContact:
-			lit = fmt.Sprintf("(UNoContact %s)", coqBool(!x.time.IsZero()))
-		default:
-			return
-		}
-		had := l.transfer.respCh != nil
-		c.run(n, "replUpdate "+lit, fmt.Sprintf("(ELeader (LReplUpdate %d %s))", u.status.id, lit), func() (response, []string) {
-			l.checkReplUpdates(u)
-			return nil, c.transferMsgs(n, had)
-		})
+		c.doReplUpdate(n)
 		return
 	}
 	ids := make([]uint64, 0, len(l.repls))
@@ -1041,111 +1177,20 @@ func (c *simCluster) leaderStep(n *simNode) {
 	switch {
 	case x < 22: // client batch
 		k := 1 + c.rnd.Intn(3)
-		var head, tail *newEntry
-		var lits []string
+		var kinds []entryType
 		for i := 0; i < k; i++ {
-			var ft FSMTask
-			var lit string
 			switch c.rnd.Intn(6) {
 			case 0:
-				ft = ReadFSM(nil)
-				lit = fmt.Sprintf("(mkNewReq %d [] ", uint8(entryRead))
+				kinds = append(kinds, entryRead)
 			case 1:
-				ft = BarrierFSM()
-				lit = fmt.Sprintf("(mkNewReq %d [] ", uint8(entryBarrier))
+				kinds = append(kinds, entryBarrier)
 			default:
-				p := c.payload()
-				ft = UpdateFSM(p)
-				lit = fmt.Sprintf("(mkNewReq %d %s ", uint8(entryUpdate), coqBytes(p))
-			}
-			st := c.newTask(id, ft, "fsm")
-			lits = append(lits, lit+fmt.Sprint(st.id)+")")
-			ne := ft.newEntry()
-			if tail != nil {
-				tail.next, tail = ne, ne
-			} else {
-				head, tail = ne, ne
+				kinds = append(kinds, entryUpdate)
 			}
 		}
-		c.run(n, "client batch", "(ELeader (LClient ["+strings.Join(lits, ";")+"]))", func() (response, []string) {
-			l.storeEntry(head)
-			return nil, nil
-		})
+		c.doClient(n, kinds)
 	case x < 70 && len(ids) > 0: // replication work for one follower
-		fid := ids[c.rnd.Intn(len(ids))]
-		rp := l.repls[fid]
-		rq := c.reqs[rp]
-		if rq == nil {
-			return
-		}
-		if len(rp.leaderUpdateCh) > 0 {
-			c.run(n, fmt.Sprintf("flr %d leaderUpdate", fid), fmt.Sprintf("(ELeader (LFlrUpdate %d))", fid), func() (response, []string) {
-				u := <-rp.leaderUpdateCh
-				rp.onLeaderUpdate(u, rq)
-				return nil, c.drainUpdates(n)
-			})
-			return
-		}
-		key := [2]uint64{id, fid}
-		// replicate(): lock-step probes until matchIndex+1 == nextIndex, then a pipeline
-		if !c.piping[key] && c.await[key] > 0 {
-			return // a probe waits for its response
-		}
-		if c.await[key] >= 3 {
-			return
-		}
-		sendEntries := c.piping[key]
-		var wire []byte
-		var needSnap bool
-		pv := c.run(n, fmt.Sprintf("flr %d send entries=%v", fid, sendEntries), fmt.Sprintf("(ELeader (LFlrSend %d %s))", fid, coqBool(sendEntries)), func() (response, []string) {
-			cn, buf := simConn(nil)
-			err := rp.writeAppendEntriesReq(cn, rq, sendEntries)
-			if err == log.ErrNotFound {
-				needSnap = true
-				return nil, []string{fmt.Sprintf("(MNeedSnapshot %d)", fid)}
-			}
-			if err != nil {
-				panic(err)
-			}
-			wire = append([]byte{}, buf.Bytes()...)
-			// decode what was really written, for the case file
-			rd := bytes.NewReader(wire[1:])
-			q := &appendReq{}
-			if err := q.decode(rd); err != nil {
-				panic(err)
-			}
-			var es []*entry
-			for k := uint64(0); k < q.numEntries; k++ {
-				e := &entry{}
-				if err := e.decode(rd); err != nil {
-					panic(err)
-				}
-				es = append(es, e)
-			}
-			return nil, []string{fmt.Sprintf("(MAppend %d %s)", fid, coqAppendReq(q, es))}
-		})
-		if pv != nil {
-			return
-		}
-		if needSnap {
-			c.sendSnapshot(n, fid, rq)
-			return
-		}
-		m := &simMsg{from: id, to: fid, wire: wire, kind: rpcAppendEntries, epoch: c.epoch[id], reqLast: rp.nextIndex - 1}
-		rd := bytes.NewReader(wire[1:])
-		q := &appendReq{}
-		_ = q.decode(rd)
-		var es []*entry
-		for k := uint64(0); k < q.numEntries; k++ {
-			e := &entry{}
-			_ = e.decode(rd)
-			es = append(es, e)
-		}
-		m.lit = "(EAppendReq " + coqAppendReq(q, es) + ")"
-		m.piped = sendEntries
-		c.net = append(c.net, m)
-		c.pipes[key] = append(c.pipes[key], m)
-		c.await[key]++
+		c.doFlr(n, ids[c.rnd.Intn(len(ids))])
 	case x < 78:
 		c.changeConfig(n)
 	case x < 81:
